@@ -6,107 +6,513 @@ R12.3 one linear system: deltaF = solve(operator, source) from one assembly; res
 R12.4 axis roles of every factor in the Liouville and collision products; matrices built for the right direction/basis
 R12.5 the background is boosted on a deep copy
 R12.6 deltaF is converted to grid values on every polynomial axis before z-dependent point-wise weights are applied
+
+How the code is recognised (nothing below depends on the spelling of a local variable, on temporaries, on extracted simple
+helpers, on keyword vs positional arguments or on the order of commutative operands):
+
+  * `Flat` substitutes every local of buildLinearEquations forward by its definition, once per derivative mode.  What the
+    function returns -- (operator, source, liouville, collision), a public tuple -- is then an expression over public API
+    only (self.background.*, self.grid.*, Polynomial(...), findiff.FinDiff(...)), except for the quantities assigned inside
+    the two derivative-mode branches, which are kept symbolic (their two definitions are compared by R12.1).
+  * arithmetic is compared as sympy terms (terms.Extractor) after the non-arithmetic leaves have been given a ROLE from
+    the public API they are read from (temperature profile, velocity profile, wall velocity, masses, statistics, momenta,
+    compactification Jacobians); the three profile derivatives are identified by the slot they occupy in the source term.
 """
 from __future__ import annotations
 
 import ast
+import copy
+from fractions import Fraction
+from typing import Callable, Optional
 
 import sympy as sp
 
-from ..core import (AnchorMissing, Check, Undecided, calls_in, dotted, kwarg, own_nodes, src, walk_guarded, slice_src)
+from ..core import AnchorMissing, Check, Undecided, calls_in, dotted, kwarg, own_nodes, src
+from ..flow import CFG
+from ..nf import Ctx, eqx, has, match, nf, same
 from ..terms import Extractor, WHERE, is_zero
 
 LEVEL = "other"
 BS = "boltzmann:BoltzmannSolver"
-PROFILES = {"dTemperaturedChi": "temperatureFull", "dvdChi": "vFull", "dMsqdChi": "msqFull"}
-PROFILE_SRC = {"temperatureFull": "temperatureProfile", "vFull": "velocityProfile", "msqFull": "fieldProfiles"}
+# role labels of the three profile derivatives (stable parts of obligation keys) -> background attribute they differentiate
+PROFILES = {"dTemperaturedChi": "temperatureProfile", "dvdChi": "velocityProfile", "dMsqdChi": "fieldProfiles"}
+PROFILE_LABEL = {"dTemperaturedChi": "temperatureFull", "dvdChi": "vFull", "dMsqdChi": "msqFull"}
+# Polynomial(coefficients, grid, basis, direction, endpoints): arguments are read with kwarg(call, name, position)
 
 
 def n(x) -> str:
     return " ".join(src(x).split())
 
 
-def _arms(fi):
-    """assignments of buildLinearEquations per arm: 'common', 'spectral', 'fd' -> {name: [value exprs]}"""
-    arms = {"common": {}, "spectral": {}, "fd": {}}
-    seen_guard = False
-    for guards, st in walk_guarded(fi.node):
-        arm = "common"
-        for t, pol in guards:
-            if isinstance(t, ast.Compare) and "self.derivatives" in n(t):
-                seen_guard = True
-                is_spec = '"Spectral"' in n(t).replace("'", '"')
-                eq = isinstance(t.ops[0], ast.Eq)
-                arm = "spectral" if (is_spec == eq) == pol else "fd"
-        if isinstance(st, ast.Assign) and len(st.targets) == 1:
-            t0 = st.targets[0]
-            if isinstance(t0, ast.Name):
-                arms[arm].setdefault(t0.id, []).append(st.value)
-            elif isinstance(t0, ast.Tuple):
-                for i, e in enumerate(t0.elts):
-                    if isinstance(e, ast.Name):
-                        arms[arm].setdefault(e.id, []).append(("tuple", i, st.value))
-    if not seen_guard:
-        raise AnchorMissing("buildLinearEquations: no branch on self.derivatives")
-    return arms
+# ------------------------------------------------------------------------------------------------ forward substitution
 
 
-def _roots(expr, arm, common, targets, depth=0) -> set:
-    """names in `targets` reachable from expr through local definitions of this arm / the common part"""
+def _bound_names(t: ast.AST) -> set:
+    return {x.id for x in ast.walk(t) if isinstance(x, ast.Name)}
+
+
+def assigned_names(stmts) -> set:
+    """names (re)bound anywhere inside the statements (not inside nested defs / lambdas / comprehensions)"""
     out = set()
-    if depth > 6:
-        return out
-    if isinstance(expr, tuple):
-        expr = expr[2]
-    for x in ast.walk(expr):
-        if isinstance(x, ast.Name) and isinstance(x.ctx, ast.Load):
-            if x.id in targets:
-                out.add(x.id)
-            else:
-                for d in (arm.get(x.id) or common.get(x.id) or [])[-1:]:
-                    out |= _roots(d, arm, common, targets, depth + 1)
+    stack = list(stmts)
+    while stack:
+        x = stack.pop()
+        if isinstance(x, (ast.FunctionDef, ast.AsyncFunctionDef, ast.ClassDef)):
+            out.add(x.name)
+            continue
+        if isinstance(x, (ast.Lambda, ast.ListComp, ast.SetComp, ast.DictComp, ast.GeneratorExp)):
+            continue
+        if isinstance(x, ast.Assign):
+            for t in x.targets:
+                out |= {y.id for y in ast.walk(t) if isinstance(y, ast.Name) and isinstance(y.ctx, ast.Store)}
+        elif isinstance(x, (ast.AugAssign, ast.AnnAssign)):
+            if isinstance(x.target, ast.Name):
+                out.add(x.target.id)
+        elif isinstance(x, (ast.For, ast.AsyncFor)):
+            out |= _bound_names(x.target)
+        elif isinstance(x, (ast.With, ast.AsyncWith)):
+            for it in x.items:
+                if it.optional_vars is not None:
+                    out |= _bound_names(it.optional_vars)
+        elif isinstance(x, ast.NamedExpr):
+            out |= _bound_names(x.target)
+        elif isinstance(x, ast.ExceptHandler) and x.name:
+            out.add(x.name)
+        stack.extend(ast.iter_child_nodes(x))
     return out
 
 
-def r12_1(chk: Check, fi, arms) -> None:
-    tg = set(PROFILES.values())
-    # provenance of the profile arrays themselves
-    for prof, attr in PROFILE_SRC.items():
-        vals = arms["common"].get(prof)
-        if not vals:
-            raise AnchorMissing(f"buildLinearEquations: `{prof}` not defined")
-        ok = f"self.background.{attr}" in n(vals[-1])
-        chk.ob("R12.1", fi.where(vals[-1]), f"`{prof}` is taken from background.{attr}", ok, n(vals[-1])[:120], key=f"profile|{prof}")
-    for name, want in PROFILES.items():
-        for arm in ("spectral", "fd"):
-            vals = arms[arm].get(name)
-            if not vals:
-                raise AnchorMissing(f"buildLinearEquations: `{name}` not assigned in the {arm} branch")
-            r = _roots(vals[-1], arms[arm], arms["common"], tg)
-            chk.ob("R12.1", fi.where(vals[-1]), f"{arm} branch: `{name}` is the derivative of `{want}` (same profile in both derivative modes)",
-                   r == {want}, f"differentiates {sorted(r)}: {n(vals[-1])[:100]}", key=f"root|{arm}|{name}")
-    # finite-difference operator is built on the compact grid with endpoints, first derivative along axis 0
-    fd = arms["fd"]
-    coords = [c for c in calls_in(fi.node, "getCompactCoordinates")]
-    ok = any(isinstance(kwarg(c, "endpoints", 0), ast.Constant) and kwarg(c, "endpoints", 0).value is True for c in coords)
-    chk.ob("R12.1", fi.where(), "finite-difference matrices are built on the compact coordinates including the end points", ok,
-           key="fd|endpoints")
-    for c in calls_in(fi.node, "FinDiff"):
-        a0 = c.args[0] if c.args else None
-        ok = isinstance(a0, ast.Tuple) and len(a0.elts) == 3 and n(a0.elts[0]) == "0" and n(a0.elts[2]) == "1"
-        chk.ob("R12.1", fi.where(c), "FinDiff operator is a first derivative along axis 0", ok, n(c)[:80], key=f"fd|op|{n(a0.elts[1]) if ok else n(c)}")
-    chk.floor("R12.1", 11)
+class _Subst(ast.NodeTransformer):
+    """replace free local names by their current definitions (names bound by comprehensions / lambdas are left alone)"""
+
+    def __init__(self, env: dict, bound=frozenset()):
+        self.env, self.bound = env, bound
+
+    def visit_Name(self, x):
+        if isinstance(x.ctx, ast.Load) and x.id in self.env and x.id not in self.bound:
+            return copy.deepcopy(self.env[x.id])
+        return x
+
+    def _scoped(self, x, names):
+        return _Subst(self.env, self.bound | frozenset(names)).generic_visit(x)
+
+    def _comp(self, x):
+        names = set()
+        for g in x.generators:
+            names |= _bound_names(g.target)
+        return self._scoped(x, names)
+
+    visit_ListComp = visit_SetComp = visit_GeneratorExp = visit_DictComp = _comp
+
+    def visit_Lambda(self, x):
+        a = x.args
+        names = {p.arg for p in a.posonlyargs + a.args + a.kwonlyargs}
+        if a.vararg:
+            names.add(a.vararg.arg)
+        if a.kwarg:
+            names.add(a.kwarg.arg)
+        return self._scoped(x, names)
 
 
-def r12_2(chk: Check, fi) -> None:
-    S = chk.src
-    ex = Extractor(S)
+class Flat:
+    """Forward substitution through the body of one function.
+
+    Every local is replaced by its definition at the point of use, so that what the function returns / stores / calls is an
+    expression over its parameters and `self` only; simple extracted helpers are looked through (Ctx.resolve).
+      choose(test) -> True / False / None   decides an `if` (the test is already resolved); an undecided `if` forks and the
+                                            two environments are merged with conditional expressions
+      hold                                  names assigned inside a decided `if` stay symbolic afterwards; their definitions
+                                            are kept in `held` (substitute them with full())
+    Names assigned inside loops / handlers are opaque (they stand for themselves)."""
+
+    def __init__(self, S, fi, choose: Optional[Callable] = None, hold: bool = False, keep_calls=frozenset()):
+        self.S, self.fi = S, fi
+        self.cx = Ctx(S, fi)
+        self.choose = choose or (lambda t: None)
+        self.hold = hold
+        self.keep_calls = set(keep_calls)
+        a = fi.node.args
+        self.params = [p.arg for p in a.posonlyargs + a.args + a.kwonlyargs]
+        self.names = assigned_names(fi.node.body) | set(self.params)
+        self.env: dict = {}
+        self.defs: dict = {}       # name -> [resolved value of every assignment, in order]
+        self.held: dict = {}       # name -> resolved definition inside the decided branch
+        self.decided: list = []    # the `if` statements decided by choose
+        self.events: list = []     # (statement, resolved expression) of expression statements and non-local stores
+        self.returns: list = []    # (statement, resolved value)
+        self.before: dict = {}     # id(simple statement) -> environment just before it
+        self.tests: dict = {}      # id(test expression of an if / while) -> resolved test
+        self.iters: dict = {}      # id(for statement) -> resolved iterable
+        self._block(fi.node.body, self.env)
+
+    # -- expressions
+    def res(self, e, env=None):
+        if e is None:
+            return None
+        r = self.cx.resolve(e, keep=self.names, helpers=True, keep_calls=self.keep_calls)
+        return _Subst(self.env if env is None else env).visit(r)
+
+    def full(self, e):
+        """copy of a resolved expression with the held names replaced by their definitions"""
+        out = copy.deepcopy(e)
+        for _ in range(4):
+            if not any(isinstance(x, ast.Name) and x.id in self.held for x in ast.walk(out)):
+                break
+            out = _Subst(self.held).visit(out)
+        return out
+
+    # -- statements
+    def _opaque(self, names, env):
+        for nm in names:
+            env[nm] = ast.Name(id=nm, ctx=ast.Load())
+
+    def _bind(self, t, v, env, st):
+        if isinstance(t, ast.Name):
+            env[t.id] = v
+            self.defs.setdefault(t.id, []).append(v)
+        elif isinstance(t, (ast.Tuple, ast.List)):
+            if any(isinstance(e, ast.Starred) for e in t.elts):
+                self._opaque(_bound_names(t), env)
+                return
+            same_len = isinstance(v, (ast.Tuple, ast.List)) and len(v.elts) == len(t.elts)
+            for i, e in enumerate(t.elts):
+                self._bind(e, v.elts[i] if same_len else ast.Subscript(value=copy.deepcopy(v), slice=ast.Constant(value=i), ctx=ast.Load()), env, st)
+        else:
+            self.events.append((st, ast.Assign(targets=[self._target(t, env)], value=v, lineno=getattr(st, "lineno", 0))))
+
+    def _target(self, t, env):
+        """a store target `root[...]...` / `root.attr...`: indices are resolved, the object stored into keeps its name"""
+        if isinstance(t, ast.Subscript):
+            return ast.Subscript(value=self._target(t.value, env), slice=self.res(t.slice, env), ctx=ast.Load())
+        if isinstance(t, ast.Attribute):
+            return ast.Attribute(value=self._target(t.value, env), attr=t.attr, ctx=ast.Load())
+        if isinstance(t, ast.Name):
+            return ast.Name(id=t.id, ctx=ast.Load())
+        return self.res(t, env)
+
+    def _block(self, body, env) -> bool:
+        for st in body:
+            if self._stmt(st, env):
+                return True
+        return False
+
+    def _stmt(self, st, env) -> bool:
+        """True when the statement ends the block (return / raise)"""
+        if isinstance(st, (ast.FunctionDef, ast.AsyncFunctionDef, ast.ClassDef)):
+            return False
+        if not isinstance(st, (ast.If, ast.For, ast.While, ast.Try, ast.With, ast.AsyncFor, ast.AsyncWith, ast.Match)):
+            self.before[id(st)] = dict(env)
+        if isinstance(st, ast.Assign):
+            v = self.res(st.value, env)
+            for t in st.targets:
+                self._bind(t, v, env, st)
+        elif isinstance(st, ast.AnnAssign):
+            if st.value is not None:
+                self._bind(st.target, self.res(st.value, env), env, st)
+        elif isinstance(st, ast.AugAssign):
+            cur = self.res(ast.copy_location(_load(st.target), st.target), env)
+            v = ast.BinOp(left=cur, op=st.op, right=self.res(st.value, env))
+            self._bind(st.target, v, env, st)
+        elif isinstance(st, ast.Expr):
+            self.events.append((st, self.res(st.value, env)))
+        elif isinstance(st, ast.Return):
+            self.returns.append((st, self.res(st.value, env)))
+            return True
+        elif isinstance(st, ast.Raise):
+            return True
+        elif isinstance(st, ast.If):
+            t = self.res(st.test, env)
+            self.tests[id(st.test)] = t
+            c = self.choose(t)
+            if c is None and isinstance(t, ast.Constant) and isinstance(t.value, bool):
+                return self._block(st.body if t.value else st.orelse, env)     # a flag whose value is known
+            if c is not None:
+                self.decided.append(st)
+                end = self._block(st.body if c else st.orelse, env)
+                if self.hold:
+                    for nm in assigned_names(st.body) | assigned_names(st.orelse):
+                        if nm in env:
+                            self.held[nm] = env[nm]
+                            env[nm] = ast.Name(id=nm, ctx=ast.Load())
+                return end
+            e1, e2 = dict(env), dict(env)
+            t1, t2 = self._block(st.body, e1), self._block(st.orelse, e2)
+            if t1 and t2:
+                return True
+            if t1 or t2:
+                src_env = e2 if t1 else e1
+                env.clear()
+                env.update(src_env)
+                return False
+            for k in set(e1) | set(e2):
+                a, b = e1.get(k), e2.get(k)
+                if a is not None and b is not None and (a is b or nf(a) == nf(b)):
+                    env[k] = a
+                else:
+                    und = ast.Name(id=k, ctx=ast.Load())
+                    env[k] = ast.IfExp(test=copy.deepcopy(t), body=a if a is not None else und, orelse=b if b is not None else und)
+        elif isinstance(st, (ast.For, ast.AsyncFor, ast.While)):
+            names = assigned_names([st])
+            self._opaque(names, env)
+            if isinstance(st, ast.While):
+                self.tests[id(st.test)] = self.res(st.test, env)
+            else:
+                self.iters[id(st)] = self.res(st.iter, env)
+            e1 = dict(env)
+            self._block(st.body, e1)
+            self._block(st.orelse, e1)
+            self._opaque(names, env)
+        elif isinstance(st, (ast.With, ast.AsyncWith)):
+            for it in st.items:
+                self.events.append((st, self.res(it.context_expr, env)))
+                if it.optional_vars is not None:
+                    self._opaque(_bound_names(it.optional_vars), env)
+            return self._block(st.body, env)
+        elif isinstance(st, ast.Try):
+            names = set()
+            for h in st.handlers:
+                names |= assigned_names(h.body)
+            end = self._block(st.body, env)
+            if not end:
+                end = self._block(st.orelse, env)
+            for h in st.handlers:
+                e1 = dict(env)
+                self._opaque(assigned_names(st.body), e1)
+                self._block(h.body, e1)
+            self._opaque(names, env)
+            if st.finalbody:
+                end = self._block(st.finalbody, env) or end
+            return end
+        return False
+
+
+def _load(t):
+    t = copy.deepcopy(t)
+    for x in ast.walk(t):
+        if hasattr(x, "ctx"):
+            x.ctx = ast.Load()
+    return t
+
+
+# ------------------------------------------------------------------------------------------------ roles of leaves
+
+
+def _is_bcast(e) -> bool:
+    if isinstance(e, ast.Constant) and (e.value is None or e.value is Ellipsis):
+        return True
+    if isinstance(e, ast.Slice) and e.lower is None and e.upper is None and e.step is None:
+        return True
+    return isinstance(e, ast.Attribute) and dotted(e) in ("np.newaxis", "numpy.newaxis")
+
+
+def _pure_bcast(sub: ast.Subscript) -> bool:
+    sl = sub.slice
+    return all(_is_bcast(e) for e in (sl.elts if isinstance(sl, ast.Tuple) else [sl]))
+
+
+def _kept_axes(sub: ast.Subscript):
+    sl = sub.slice
+    elts = sl.elts if isinstance(sl, ast.Tuple) else [sl]
+    kept = []
+    for i, e in enumerate(elts):
+        if (isinstance(e, ast.Constant) and e.value is None) or (isinstance(e, ast.Attribute) and dotted(e) in ("np.newaxis", "numpy.newaxis")):
+            continue
+        if isinstance(e, ast.Slice) and e.lower is None and e.upper is None and e.step is None:
+            kept.append(i)
+        else:
+            return None, len(elts)
+    return tuple(kept), len(elts)
+
+
+def _array_leaves(e: ast.AST) -> list:
+    """the non-constant leaves of an arithmetic expression"""
+    if isinstance(e, ast.BinOp):
+        return _array_leaves(e.left) + _array_leaves(e.right)
+    if isinstance(e, ast.UnaryOp):
+        return _array_leaves(e.operand)
+    if isinstance(e, ast.Constant):
+        return []
+    if isinstance(e, ast.Call) and (dotted(e.func) or "") in ARITH_FUNCS:
+        return [x for a in e.args for x in _array_leaves(a)]
+    return [e]
+
+
+def _replace(e: ast.AST, old: ast.AST, new: ast.AST) -> ast.AST:
+    """e with the node `old` replaced by `new` (e itself is left untouched)"""
+    if e is old:
+        return new
+    if isinstance(e, ast.BinOp):
+        return ast.BinOp(left=_replace(e.left, old, new), op=e.op, right=_replace(e.right, old, new))
+    if isinstance(e, ast.UnaryOp):
+        return ast.UnaryOp(op=e.op, operand=_replace(e.operand, old, new))
+    if isinstance(e, ast.Call) and (dotted(e.func) or "") in ARITH_FUNCS:
+        return ast.Call(func=e.func, args=[_replace(a, old, new) for a in e.args], keywords=e.keywords)
+    return e
+
+
+ARITH_FUNCS = {"np.sqrt", "numpy.sqrt", "math.sqrt", "np.exp", "numpy.exp", "np.abs", "abs"}
+
+
+def _tuple_index(leaf: ast.AST, method: str) -> Optional[int]:
+    """k of  <recv>.method(...)[k]  inside the leaf"""
+    for x in ast.walk(leaf):
+        if isinstance(x, ast.Subscript) and isinstance(x.value, ast.Call) and isinstance(x.value.func, ast.Attribute) and x.value.func.attr == method \
+                and isinstance(x.slice, ast.Constant) and isinstance(x.slice.value, int):
+            return x.slice.value
+    return None
+
+
+class Roles:
+    """Gives every non-arithmetic leaf of a resolved expression a role symbol, from the public API the leaf is read from."""
+
+    MARKS = (("T", "temperatureProfile"), ("V", "velocityProfile"), ("VW", "velocityWall"), ("MSQ", "msqVacuum"), ("STAT", "statistics"),
+             ("CM", "collisionMultiplier"), ("XYZ", "getCoordinates"), ("JAC", "getCompactificationDerivatives"), ("PZ", "pzValues"), ("PP", "ppValues"))
+
+    def __init__(self, held=()):
+        self.held = set(held)
+        self.leaves: dict = {}     # nf(leaf) -> (symbol, leaf node)
+        self.by_role: dict = {}    # role -> [symbols]
+        self.held_of: dict = {}    # role of a held quantity -> the held local names it is made of
+
+    def classify(self, leaf: ast.AST) -> str:
+        hn = {x.id for x in ast.walk(leaf) if isinstance(x, ast.Name) and x.id in self.held}
+        if hn:
+            # a quantity assigned inside the decided branch: H_<name> (the local itself), HS_<name> (an index / call applied to it)
+            role = ("H_" if isinstance(leaf, ast.Name) else "HS_") + next(iter(hn)) if len(hn) == 1 else "D_" + "_".join(sorted(hn))
+            self.held_of[role] = sorted(hn)
+            return role
+        attrs = {x.attr for x in ast.walk(leaf) if isinstance(x, ast.Attribute)}
+        hit = [r for r, a in self.MARKS if a in attrs]
+        if len(hit) != 1:
+            return "U"
+        r = hit[0]
+        if r == "XYZ":
+            k = _tuple_index(leaf, "getCoordinates")
+            return {0: "XI", 1: "PZ", 2: "PP"}.get(k, "U")
+        if r == "JAC":
+            k = _tuple_index(leaf, "getCompactificationDerivatives")
+            return f"JAC{k}" if k in (0, 1, 2) else "U"
+        return r
+
+    def symbol(self, leaf: ast.AST) -> str:
+        key = nf(leaf)
+        if key in self.leaves:
+            return self.leaves[key][0]
+        role = self.classify(leaf)
+        have = self.by_role.setdefault(role, [])
+        sym = role if not have else f"{role}__{len(have) + 1}"
+        have.append(sym)
+        self.leaves[key] = (sym, leaf)
+        return sym
+
+    def abstract(self, e: ast.AST) -> ast.AST:
+        """copy of e in which every maximal non-arithmetic sub-expression is replaced by its role symbol"""
+        if isinstance(e, ast.BinOp) and isinstance(e.op, (ast.Add, ast.Sub, ast.Mult, ast.Div, ast.Pow)):
+            return ast.BinOp(left=self.abstract(e.left), op=e.op, right=self.abstract(e.right))
+        if isinstance(e, ast.UnaryOp) and isinstance(e.op, (ast.USub, ast.UAdd)):
+            return ast.UnaryOp(op=e.op, operand=self.abstract(e.operand))
+        if isinstance(e, ast.Constant) and isinstance(e.value, (int, float)) and not isinstance(e.value, bool):
+            return e
+        if isinstance(e, ast.Attribute) and dotted(e) in ("np.pi", "numpy.pi", "math.pi"):
+            return e
+        if isinstance(e, ast.Call):
+            d = dotted(e.func) or ""
+            if d in ARITH_FUNCS or d.split(".")[-1] in ("_dfeq", "_feq"):
+                return ast.Call(func=e.func, args=[self.abstract(a) for a in e.args], keywords=[ast.keyword(arg=k.arg, value=self.abstract(k.value)) for k in e.keywords])
+        if isinstance(e, ast.Subscript) and _pure_bcast(e) and not (isinstance(e.value, ast.Name) and e.value.id in self.held):
+            inner = e.value
+            if isinstance(inner, (ast.BinOp, ast.UnaryOp)) or (isinstance(inner, ast.Call) and (dotted(inner.func) or "") in ARITH_FUNCS):
+                # (1 / x)[None, :, None] == 1 / x[None, :, None]: with a single array operand the index can be moved onto it
+                arrays = _array_leaves(inner)
+                if len(arrays) == 1:
+                    inner = _replace(inner, arrays[0], ast.Subscript(value=arrays[0], slice=e.slice, ctx=ast.Load()))
+                return self.abstract(inner)
+        return ast.Name(id=self.symbol(e), ctx=ast.Load())
+
+
+# ------------------------------------------------------------------------------------------------ the model of buildLinearEquations
+
+
+def _mode_choice(arm: str):
+    """decides `self.derivatives == "Spectral"` (and its spellings) for one derivative mode"""
+    def choose(t):
+        if not (isinstance(t, ast.Compare) and len(t.ops) == 1 and isinstance(t.ops[0], (ast.Eq, ast.NotEq))):
+            return None
+        a, b = t.left, t.comparators[0]
+        if eqx(b, "self.derivatives"):
+            a, b = b, a
+        if not (eqx(a, "self.derivatives") and isinstance(b, ast.Constant) and isinstance(b.value, str)):
+            return None
+        is_spec = b.value == "Spectral"
+        eq = isinstance(t.ops[0], ast.Eq)
+        taken = "spectral" if is_spec == eq else "fd"      # the mode in which the test is true
+        return taken == arm
+    return choose
+
+
+class Model:
+    def __init__(self, S):
+        self.S = S
+        self.fi = S.func(f"{BS}.buildLinearEquations")
+        self.flat = {arm: Flat(S, self.fi, choose=_mode_choice(arm), hold=True, keep_calls={"_feq", "_dfeq"}) for arm in ("spectral", "fd")}
+        if not all(f.decided for f in self.flat.values()):
+            raise AnchorMissing("buildLinearEquations: no branch on self.derivatives")
+        self.ret = {}
+        for arm, f in self.flat.items():
+            if len(f.returns) != 1 or not isinstance(f.returns[0][1], ast.Tuple) or len(f.returns[0][1].elts) != 4:
+                raise AnchorMissing("buildLinearEquations: expected one `return operator, source, liouville, collision`")
+            self.ret[arm] = f.returns[0][1].elts
+        self.ex = Extractor(S)
+        self.env0 = {"__module__": "boltzmann", "__class__": "BoltzmannSolver"}
+
+    def term(self, roles: Roles, e: ast.AST):
+        a = roles.abstract(e)
+        ast.fix_missing_locations(a)
+        return self.ex.expr(a, self.env0)
+
+
+def _unreshape(e: ast.AST):
+    """(inner, shape, order) of np.reshape(inner, shape, order=..) / inner.reshape(shape, order=..) / inner.ravel() / inner.flatten()"""
+    if not isinstance(e, ast.Call):
+        return None
+    d = dotted(e.func) or ""
+    if d in ("np.reshape", "numpy.reshape"):
+        shape = kwarg(e, "shape", 1) or kwarg(e, "newshape")
+        return (e.args[0] if e.args else kwarg(e, "a"), shape, kwarg(e, "order", 2))
+    if isinstance(e.func, ast.Attribute) and e.func.attr == "reshape":
+        shape = e.args[0] if len(e.args) == 1 else (ast.Tuple(elts=list(e.args), ctx=ast.Load()) if e.args else kwarg(e, "shape"))
+        return (e.func.value, shape, kwarg(e, "order"))
+    if isinstance(e.func, ast.Attribute) and e.func.attr in ("ravel", "flatten") and len(e.args) + len(e.keywords) <= 1:
+        return (e.func.value, None, kwarg(e, "order", 0))
+    return None
+
+
+def _order(o) -> Optional[str]:
+    if o is None:
+        return "C"
+    return o.value if isinstance(o, ast.Constant) and isinstance(o.value, str) else None
+
+
+# ------------------------------------------------------------------------------------------------ R12.2 (run first: it identifies the derivative roles)
+
+
+def _stat_ok(x: ast.IfExp) -> bool:
+    return bool(match(x, '-1 if __p.statistics == "Fermion" else 1') or match(x, '1 if __p.statistics != "Fermion" else -1'))
+
+
+def r12_2(chk: Check, M: Model) -> dict:
+    """returns {role label: local name} of the three profile derivatives"""
+    S, fi, ex = chk.src, M.fi, M.ex
     f_feq, f_dfeq = S.func(f"{BS}._feq"), S.func(f"{BS}._dfeq")
     chk.touch(f_feq.name, f_dfeq.name)
     a, b = ex.single(f_feq), ex.single(f_dfeq)
     if not (isinstance(a, sp.Basic) and a.func == WHERE and isinstance(b, sp.Basic) and b.func == WHERE):
         raise Undecided("_feq/_dfeq: expected np.where(overflow, 0, value)")
-    x, s = ex.sym("x"), ex.sym("statistics")
+    pa, pb = [p for p in f_feq.params() if p not in ("self", "cls")], [p for p in f_dfeq.params() if p not in ("self", "cls")]
+    if len(pa) != 2 or len(pb) != 2:
+        raise AnchorMissing("_feq/_dfeq: expected the parameters (x, statistics)")
+    x, s = ex.sym(pa[0]), ex.sym(pa[1])
+    b = b.subs({ex.sym(pb[0]): x, ex.sym(pb[1]): s}, simultaneous=True)
     chk.ob("R12.2", f_feq.where(), "_feq / _dfeq: the overflow branch returns 0", a.args[1] == 0 and b.args[1] == 0,
            f"{a.args[1]}, {b.args[1]}", key="feq|overflow")
     for stat in (1, -1):
@@ -118,295 +524,515 @@ def r12_2(chk: Check, fi) -> None:
     # statistics sign convention at both construction sites
     for fn_ in ("buildLinearEquations", "checkLinearization"):
         f2 = S.func(f"{BS}.{fn_}")
-        oks = []
-        for x_ in own_nodes(f2.node):
-            if isinstance(x_, ast.IfExp) and "statistics" in n(x_.test):
-                oks.append(n(x_) == '-1 if particle.statistics == "Fermion" else 1'.replace('"', "'") or
-                           n(x_) == '-1 if particle.statistics == "Fermion" else 1')
+        oks = [_stat_ok(x_) for x_ in ast.walk(f2.node) if isinstance(x_, ast.IfExp) and any(isinstance(y, ast.Attribute) and y.attr == "statistics" for y in ast.walk(x_.test))]
         chk.ob("R12.2", f2.where(), f"{fn_}: statistics = -1 for fermions, +1 for bosons", bool(oks) and all(oks), key=f"stat|{fn_}")
-    # source term
-    src_assign = None
-    for st in own_nodes(fi.node):
-        if isinstance(st, ast.Assign) and isinstance(st.targets[0], ast.Name) and st.targets[0].id == "source" \
-                and not (isinstance(st.value, ast.Call) and (dotted(st.value.func) or "").endswith("reshape")):
-            src_assign = st
-    if src_assign is None:
-        raise AnchorMissing("buildLinearEquations: source term not found")
-    env = {"__module__": "boltzmann", "__class__": "BoltzmannSolver"}
-    term = ex.expr(src_assign.value, env)
-    d = [ex.sym(k) for k in PROFILES]
-    zero = term.subs({k: 0 for k in d})
-    ok, how = is_zero(zero, chk.seed)
-    chk.ob("R12.2", fi.where(src_assign), "source vanishes when dv/dchi = dT/dchi = dm^2/dchi = 0 (homogeneous background => zero deviation)",
-           ok, how, key="source|homogeneous", how=how)
-    lin = all(sp.diff(term, a_, b_) == 0 or is_zero(sp.diff(term, a_, b_))[0] for a_ in d for b_ in d)
-    chk.ob("R12.2", fi.where(src_assign), "source is linear in the three profile derivatives", lin, key="source|linear")
-    # reference form of eq. (5)/(6) of 2204.13120 in the names of the code
-    sy = {k: ex.sym(k) for k in ("dfEq", "temperature", "dchidxi", "momentumWall", "momentumPlasma", "gammaPlasma", "energyPlasma", "uwBaruPl")}
-    ref = (sy["dfEq"] / sy["temperature"]) * sy["dchidxi"] * (
-        sy["momentumWall"] * sy["momentumPlasma"] * sy["gammaPlasma"] ** 2 * d[1]
-        + sy["momentumWall"] * sy["energyPlasma"] * d[0] / sy["temperature"]
-        + sp.Rational(1, 2) * d[2] * sy["uwBaruPl"])
-    ok, how = is_zero(term - ref, chk.seed)
-    chk.ob("R12.2", fi.where(src_assign), "source == (f_eq'/T) dchi/dxi [P_w P_pl gamma_pl^2 dv + P_w E_pl dT/T + (1/2) dm^2 u_w.u_pl]", ok, how,
-           key="source|formula", how=how)
-    # kinematic building blocks
-    arms_common = {}
-    for st in own_nodes(fi.node):
-        if isinstance(st, ast.Assign) and isinstance(st.targets[0], ast.Name):
-            arms_common[st.targets[0].id] = st.value
-    refs = {
-        "gammaWall": lambda e: 1 / sp.sqrt(1 - e("velocityWall") ** 2),
-        "momentumWall": lambda e: e("gammaWall") * (e("pz") - e("velocityWall") * e("energy")),
-        "gammaPlasma": lambda e: 1 / sp.sqrt(1 - e("v") ** 2),
-        "energyPlasma": lambda e: e("gammaPlasma") * (e("energy") - e("v") * e("pz")),
-        "momentumPlasma": lambda e: e("gammaPlasma") * (e("pz") - e("v") * e("energy")),
-        "uwBaruPl": lambda e: e("gammaWall") * e("gammaPlasma") * (e("velocityWall") - e("v")),
-        "energy": lambda e: sp.sqrt(e("msq") + e("pz") ** 2 + e("pp") ** 2),
-    }
-    for nm, mk in refs.items():
-        if nm not in arms_common:
-            raise AnchorMissing(f"buildLinearEquations: `{nm}` not defined")
-        got = ex.expr(arms_common[nm], env)
-        ok, how = is_zero(got - mk(ex.sym), chk.seed)
-        chk.ob("R12.2", fi.where(arms_common[nm]), f"`{nm}` has its defining Lorentz-boost form", ok, f"{got}; {how}", key=f"kin|{nm}", how=how)
-    # dfEq argument
-    got = ex.expr(arms_common["dfEq"], env) if "dfEq" in arms_common else None
-    ok = got is not None and "energyPlasma/temperature" in str(got).replace(" ", "") and "statistics" in str(got)
-    chk.ob("R12.2", fi.where(), "f_eq' is evaluated at E_pl/T with the particle statistics", ok, str(got)[:100], key="dfeq|arg")
+    # ---- source term: the vector handed back at position 1, before it is flattened
+    out: dict = {}
+    results = []
+    seen = set()
+    for arm in ("spectral", "fd"):
+        F = M.flat[arm]
+        u = _unreshape(M.ret[arm][1])
+        if u is None:
+            raise AnchorMissing("buildLinearEquations: the returned source is not a flattened array (np.reshape / .reshape / .ravel)")
+        inner = u[0]
+        if nf(inner) in seen:
+            continue
+        seen.add(nf(inner))
+        results.append(_source_checks(chk, M, F, inner))
+    where = fi.where(M.flat["spectral"].returns[0][0])
+    first = results[0]
+    agree = all(r["slots"] == first["slots"] for r in results)
+    hom = all(r["hom"][0] for r in results)
+    chk.ob("R12.2", where, "source vanishes when dv/dchi = dT/dchi = dm^2/dchi = 0 (homogeneous background => zero deviation)",
+           hom, first["hom"][1], key="source|homogeneous", how=first["hom"][1])
+    chk.ob("R12.2", where, "source is linear in the three profile derivatives", all(r["lin"] for r in results), key="source|linear")
+    okf = all(r["formula"][0] for r in results) and agree
+    chk.ob("R12.2", where, "source == (f_eq'/T) dchi/dxi [P_w P_pl gamma_pl^2 dv + P_w E_pl dT/T + (1/2) dm^2 u_w.u_pl]", okf, first["formula"][1],
+           key="source|formula", how=first["formula"][1])
+    # kinematic building blocks: the sub-expression (or local) holding each of them has its defining form; a block that has been
+    # fused into a larger expression is covered by the full identity above
+    for nm in ("gammaWall", "momentumWall", "gammaPlasma", "energyPlasma", "momentumPlasma", "uwBaruPl", "energy"):
+        found = all(nm in r["blocks"] for r in results)
+        chk.ob("R12.2", fi.where(), f"`{nm}` has its defining Lorentz-boost form", found or okf,
+               "" if found or okf else "no sub-expression of buildLinearEquations has this value and the source differs from its reference form", key=f"kin|{nm}",
+               how="term-identity" if found else "source-identity")
+    chk.ob("R12.2", fi.where(), "f_eq' is evaluated at E_pl/T with the particle statistics", all(r["dfeq"][0] for r in results), first["dfeq"][1], key="dfeq|arg")
     chk.floor("R12.2", 16)
+    M.slot_syms = {}
+    if first["slots"] and agree:
+        for label, sym_ in first["slots"].items():
+            names = first["roles"].held_of.get(sym_.split("__")[0], [])
+            if len(names) == 1:
+                out[label] = names[0]
+                M.slot_syms[label] = sym_
+    if len(out) != 3:
+        # the source differs from its reference form (reported above): fall back on what each slot differentiates in the spectral branch,
+        # so that the remaining rules can still be decided
+        F = M.flat["spectral"]
+        by_attr = {}
+        for role, names in first["roles"].held_of.items():
+            if len(names) == 1 and names[0] in F.held and role in first["roles"].by_role:
+                marks = _profile_marks(F.full(F.held[names[0]]))
+                if len(marks) == 1:
+                    by_attr.setdefault(next(iter(marks)), []).append((names[0], first["roles"].by_role[role][0]))
+        out = {label: by_attr[attr][0][0] for label, attr in PROFILES.items() if len(by_attr.get(attr, [])) == 1}
+        M.slot_syms = {label: by_attr[attr][0][1] for label, attr in PROFILES.items() if len(by_attr.get(attr, [])) == 1}
+    M.refs = first["refs"]
+    M.roles_src = first["roles"]
+    return out
 
 
-def r12_3(chk: Check, fi) -> None:
-    S = chk.src
+def _refs(sym: Callable) -> dict:
+    """reference forms over the role symbols"""
+    T, V, VW, MSQ, PZ, PP = (sym(k) for k in ("T", "V", "VW", "MSQ", "PZ", "PP"))
+    r = {"T": T, "V": V, "VW": VW}
+    r["energy"] = sp.sqrt(MSQ + PZ**2 + PP**2)
+    r["gammaWall"] = 1 / sp.sqrt(1 - VW**2)
+    r["momentumWall"] = r["gammaWall"] * (PZ - VW * r["energy"])
+    r["gammaPlasma"] = 1 / sp.sqrt(1 - V**2)
+    r["energyPlasma"] = r["gammaPlasma"] * (r["energy"] - V * PZ)
+    r["momentumPlasma"] = r["gammaPlasma"] * (PZ - V * r["energy"])
+    r["uwBaruPl"] = r["gammaWall"] * r["gammaPlasma"] * (VW - V)
+    r["dchidxi"] = 1 / sym("JAC0")
+    r["drzdpz"] = 1 / sym("JAC1")
+    return r
+
+
+def _source_checks(chk: Check, M: Model, F: Flat, inner: ast.AST) -> dict:
+    ex = M.ex
+    roles = Roles(F.held)
+    term = M.term(roles, inner)
+    res = {"roles": roles, "slots": {}, "blocks": set(), "refs": _refs(ex.sym)}
+    if not isinstance(term, sp.Basic):
+        raise Undecided("buildLinearEquations: the source is not an arithmetic term")
+    R = res["refs"]
+    slots = [ex.sym(s_) for role, syms in roles.by_role.items() for s_ in syms if role in roles.held_of]
+    zero = term.subs({k: 0 for k in slots})
+    ok, how = is_zero(zero, chk.seed) if slots else (False, "no profile derivative enters the source")
+    res["hom"] = (bool(ok), how)
+    res["lin"] = bool(slots) and all(sp.diff(term, a_, b_) == 0 or is_zero(sp.diff(term, a_, b_), chk.seed)[0] for a_ in slots for b_ in slots)
+    # the f_eq' factor: one application of _dfeq
+    dfs = [f for f in term.atoms(sp.Function) if isinstance(f, sp.core.function.AppliedUndef) and f.func.__name__.split(".")[-1] == "_dfeq"]
+    okd, detail = False, f"{len(dfs)} applications of _dfeq"
+    DF = sp.Symbol("dfEq__", real=True)
+    if len(dfs) == 1 and len(dfs[0].args) == 2:
+        z1, h1 = is_zero(dfs[0].args[0] - R["energyPlasma"] / R["T"], chk.seed)
+        okd = bool(z1) and dfs[0].args[1] == ex.sym("STAT")
+        detail = f"{dfs[0]}"[:160]
+        DF = dfs[0]
+    res["dfeq"] = (okd, detail)
+    pref = (DF / R["T"]) * R["dchidxi"]
+    coefs = {"dvdChi": pref * R["momentumWall"] * R["momentumPlasma"] * R["gammaPlasma"] ** 2,
+             "dTemperaturedChi": pref * R["momentumWall"] * R["energyPlasma"] / R["T"],
+             "dMsqdChi": pref * sp.Rational(1, 2) * R["uwBaruPl"]}
+    okf, hows = len(slots) == 3, []
+    for s_ in slots:
+        c = sp.diff(term, s_)
+        hit = None
+        for label, want in coefs.items():
+            if label in res["slots"]:
+                continue
+            z, h = is_zero(c - want, chk.seed)
+            if z:
+                hit = label
+                hows.append(h)
+                break
+        if hit is None:
+            okf = False
+            hows.append(f"coefficient of `{s_}` is none of the three reference coefficients")
+        else:
+            res["slots"][hit] = str(s_)
+    okf = okf and bool(ok) and res["lin"] and len(res["slots"]) == 3
+    res["formula"] = (okf, "; ".join(sorted(set(hows)))[:300])
+    if len(res["slots"]) == 2 and len(slots) == 3:
+        # two slots identified: the third one is what is left (its coefficient is reported as wrong above)
+        (label,) = set(coefs) - set(res["slots"])
+        (s_,) = {str(x) for x in slots} - set(res["slots"].values())
+        res["slots"][label] = s_
+    # kinematic blocks: which sub-expressions of the function have the value of a reference block
+    want = {k: R[k] for k in ("gammaWall", "momentumWall", "gammaPlasma", "energyPlasma", "momentumPlasma", "uwBaruPl", "energy")}
+    cands = []
+    seen = set()
+    for vals in F.defs.values():
+        for v in vals:
+            for x in ast.walk(v):
+                if isinstance(x, (ast.BinOp, ast.Call)) and not isinstance(getattr(x, "ctx", None), ast.Store):
+                    k = nf(x)
+                    if k not in seen and len(k) < 4000:
+                        seen.add(k)
+                        cands.append(x)
+    for x in cands:
+        if len(res["blocks"]) == len(want):
+            break
+        try:
+            t = M.term(roles, x)
+        except Exception:
+            continue
+        if not isinstance(t, sp.Basic):
+            continue
+        for k, w in want.items():
+            if k in res["blocks"] or t.free_symbols != w.free_symbols:
+                continue
+            if t == w or is_zero(t - w, chk.seed, budget_s=6.0)[0]:
+                res["blocks"].add(k)
+    return res
+
+
+# ------------------------------------------------------------------------------------------------ R12.1
+
+
+def _profile_marks(e: ast.AST) -> set:
+    attrs = {x.attr for x in ast.walk(e) if isinstance(x, ast.Attribute)}
+    return {a for a in ("temperatureProfile", "velocityProfile", "fieldProfiles") if a in attrs}
+
+
+def r12_1(chk: Check, M: Model, slots: dict) -> None:
+    fi = M.fi
+    if set(slots) != set(PROFILES):
+        raise AnchorMissing("buildLinearEquations: the three profile derivatives could not be identified in the source term")
+    # provenance of the differentiated profile arrays
+    for label, attr in PROFILES.items():
+        defs = [M.flat[arm].full(M.flat[arm].held[slots[label]]) for arm in ("spectral", "fd") if slots[label] in M.flat[arm].held]
+        ok = len(defs) == 2 and all(has(d, f"self.background.{attr}") for d in defs)
+        chk.ob("R12.1", fi.where(), f"`{PROFILE_LABEL[label]}` is taken from background.{attr}", ok, "; ".join(n(d)[:100] for d in defs), key=f"profile|{PROFILE_LABEL[label]}")
+    for label, attr in PROFILES.items():
+        for arm in ("spectral", "fd"):
+            F = M.flat[arm]
+            if slots[label] not in F.held:
+                raise AnchorMissing(f"buildLinearEquations: the {label} slot of the source is not assigned in the {arm} branch")
+            d = F.full(F.held[slots[label]])
+            r = _profile_marks(d)
+            chk.ob("R12.1", fi.where(), f"{arm} branch: `{label}` is the derivative of `{PROFILE_LABEL[label]}` (same profile in both derivative modes)",
+                   r == {attr}, f"differentiates {sorted(r)}: {n(d)[:100]}", key=f"root|{arm}|{label}")
+    # finite-difference operators: first derivative along axis 0 on the compact coordinates including the end points
+    F = M.flat["fd"]
+    fds = {}
+    for nm in set(slots.values()) | set(F.held):
+        if nm in F.held:
+            for c in ast.walk(F.full(F.held[nm])):
+                if isinstance(c, ast.Call) and (dotted(c.func) or "").split(".")[-1] == "FinDiff":
+                    fds.setdefault(nf(c), c)
+    ends = []
+    for c in fds.values():
+        a0 = c.args[0] if c.args else None
+        okop = isinstance(a0, ast.Tuple) and len(a0.elts) == 3 and eqx(a0.elts[0], "0") and eqx(a0.elts[2], "1")
+        direction, withends = None, False
+        if okop:
+            co = a0.elts[1]
+            if isinstance(co, ast.Subscript) and isinstance(co.value, ast.Call) and (dotted(co.value.func) or "").endswith("getCompactCoordinates") \
+                    and isinstance(co.slice, ast.Constant):
+                direction = {0: "z", 1: "pz", 2: "pp"}.get(co.slice.value)
+                withends = eqx(kwarg(co.value, "endpoints", 0), "True")
+            elif isinstance(co, ast.Call) and (dotted(co.func) or "").endswith("getCompactCoordinates"):
+                dr = kwarg(co, "direction", 1)
+                direction = dr.value if isinstance(dr, ast.Constant) else None
+                withends = eqx(kwarg(co, "endpoints", 0), "True")
+        ends.append(withends)
+        chk.ob("R12.1", fi.where(), "FinDiff operator is a first derivative along axis 0", okop and direction is not None, n(c)[:80],
+               key=f"fd|op|{ {'z': 'chiFull', 'pz': 'rzFull', 'pp': 'rpFull'}.get(direction, n(c)[:60]) }")
+    chk.ob("R12.1", fi.where(), "finite-difference matrices are built on the compact coordinates including the end points", bool(ends) and all(ends),
+           key="fd|endpoints")
+    chk.floor("R12.1", 11)
+
+
+# ------------------------------------------------------------------------------------------------ R12.3
+
+
+def r12_3(chk: Check, M: Model) -> None:
+    S, fi = chk.src, M.fi
     fs = S.func(f"{BS}.solveBoltzmannEquations")
     chk.touch(fs.name)
+    G = Flat(S, fs)
     calls = calls_in(fs.node, "buildLinearEquations")
-    op_src = None
-    for st in own_nodes(fs.node):
-        if isinstance(st, ast.Assign) and isinstance(st.value, ast.Call) and n(st.value.func) == "self.buildLinearEquations" \
-                and isinstance(st.targets[0], ast.Tuple):
-            op_src = [n(e) for e in st.targets[0].elts]
-    chk.ob("R12.3", fs.where(), "operator and source come from one buildLinearEquations() call", len(calls) == 1 and op_src is not None,
-           str(op_src), key="one-assembly")
-    rets = [r for r in own_nodes(fi.node) if isinstance(r, ast.Return)]
-    ret = [n(e) for e in rets[-1].value.elts] if rets and isinstance(rets[-1].value, ast.Tuple) else []
-    chk.ob("R12.3", fi.where(), "buildLinearEquations returns (operator, source, liouville, collision)",
-           ret == ["operator", "source", "liouville", "collision"], str(ret), key="return-order")
-    solve = [c for c in calls_in(fs.node, "solve") if (dotted(c.func) or "").endswith("linalg.solve")]
-    ok = bool(solve) and op_src is not None and [n(a) for a in solve[0].args] == op_src[:2]
+    solve = [c for _, v in G.returns for c in ast.walk(v) if isinstance(c, ast.Call) and (dotted(c.func) or "").endswith("linalg.solve")]
+    solve = list({nf(c): c for c in solve}.values())
+    one = len(calls) == 1 and eqx(calls[0], "self.buildLinearEquations()")
+    chk.ob("R12.3", fs.where(), "operator and source come from one buildLinearEquations() call", one and len(solve) == 1,
+           f"{len(calls)} assemblies, {len(solve)} solves", key="one-assembly")
+    # what is at which position of the returned tuple
+    okr, detail = True, []
+    for arm in ("spectral", "fd"):
+        op, so, lv, cv = M.ret[arm]
+        uo, us = _unreshape(op), _unreshape(so)
+        ok = uo is not None and us is not None and uo[1] is not None and isinstance(uo[1], ast.Tuple) and len(uo[1].elts) == 2 \
+            and (us[1] is None or (same(uo[1].elts[0], us[1]) and same(uo[1].elts[1], us[1]))) \
+            and has(cv, "self.collisionArray") and not has(lv, "self.collisionArray")
+        ok = ok and any(isinstance(c, ast.Call) and (dotted(c.func) or "").split(".")[-1] == "_dfeq" for c in ast.walk(so))
+        okr = okr and bool(ok)
+        detail.append(f"{arm}: matrix {uo is not None}, vector {us is not None}")
+    chk.ob("R12.3", fi.where(), "buildLinearEquations returns (operator, source, liouville, collision)", okr, "; ".join(detail), key="return-order")
+    ok = len(solve) == 1 and len(solve[0].args) + len(solve[0].keywords) == 2 and eqx(kwarg(solve[0], "a", 0), "self.buildLinearEquations()[0]") \
+        and eqx(kwarg(solve[0], "b", 1), "self.buildLinearEquations()[1]")
     chk.ob("R12.3", fs.where(), "deltaF = np.linalg.solve(operator, source) with the two leading results in that order", ok,
            n(solve[0]) if solve else "", key="solve-args")
     # reshape order and factor lists
-    ex = Extractor(S)
-    env = {"__module__": "boltzmann", "__class__": "BoltzmannSolver"}
-    orders = []
-    for f_ in (fi, fs):
-        for c in calls_in(f_.node, "reshape"):
-            o = kwarg(c, "order", 2)
-            orders.append(o.value if isinstance(o, ast.Constant) else None)
-    chk.ob("R12.3", fi.where(), "all three reshapes (source, operator, deltaF) use the same memory order", len(orders) == 3 and len(set(orders)) == 1,
-           str(orders), key="reshape-order")
+    orders = [_order(u[2]) for u in (_unreshape(M.ret["spectral"][0]), _unreshape(M.ret["spectral"][1])) if u is not None]
+    ud = _unreshape(G.returns[0][1]) if len(G.returns) == 1 else None
+    if ud is not None:
+        orders.append(_order(ud[2]))
+    # nothing else reorders the unknowns: the flattened arrays are the assembled ones, the reshaped array is the solution itself
+    direct = ud is not None and len(solve) == 1 and same(ud[0], solve[0])
+    chk.ob("R12.3", fi.where(), "all three reshapes (source, operator, deltaF) use the same memory order", len(orders) == 3 and len(set(orders)) == 1 and None not in orders
+           and direct, str(orders), key="reshape-order")
+    ex, env = M.ex, M.env0
+    us = _unreshape(M.ret["spectral"][1])
+    uo = _unreshape(M.ret["spectral"][0])
     total = None
-    for st in own_nodes(fi.node):
-        if isinstance(st, ast.Assign) and n(st.targets[0]) == "totalSize":
-            total = ex.expr(st.value, env)
-    shape = None
-    for st in own_nodes(fs.node):
-        if isinstance(st, ast.Assign) and n(st.targets[0]) == "deltaFShape":
-            shape = ex.expr(st.value, env)
+    if us is not None and us[1] is not None:
+        total = ex.expr(us[1], env)
+    elif uo is not None and isinstance(uo[1], ast.Tuple):
+        total = ex.expr(uo[1].elts[0], env)
+    shape = ex.expr(ud[1], env) if ud is not None and ud[1] is not None else None
     ok = False
-    if total is not None and isinstance(shape, tuple) and len(shape) == 4:
+    if isinstance(total, sp.Basic) and isinstance(shape, tuple) and len(shape) == 4:
         prod = sp.Mul(*shape)
-        lenp = sp.Function("len")
-        prod = prod.subs(lenp(ex.sym("self.offEqParticles")), lenp(ex.sym("particles")))
-        total = total.subs(lenp(ex.sym("self.offEqParticles")), lenp(ex.sym("particles")))
         ok = sp.expand(prod - total) == 0
-        M, N = ex.sym("self.grid.M"), ex.sym("self.grid.N")
-        ok = ok and sp.expand(shape[1] - (M - 1)) == 0 and sp.expand(shape[2] - (N - 1)) == 0 and sp.expand(shape[3] - (N - 1)) == 0
+        Mg, Ng = ex.sym("self.grid.M"), ex.sym("self.grid.N")
+        ok = ok and sp.expand(shape[1] - (Mg - 1)) == 0 and sp.expand(shape[2] - (Ng - 1)) == 0 and sp.expand(shape[3] - (Ng - 1)) == 0
     chk.ob("R12.3", fs.where(), "deltaF shape (particles, M-1, N-1, N-1) multiplies to the size of the linear system", ok,
            f"{shape} vs {total}", key="shape-product")
     chk.floor("R12.3", 5)
 
 
-def _kept_axes(sub: ast.Subscript):
-    sl = sub.slice
-    elts = sl.elts if isinstance(sl, ast.Tuple) else [sl]
-    kept = []
-    for i, e in enumerate(elts):
-        if isinstance(e, ast.Constant) and e.value is None:
-            continue
-        if isinstance(e, ast.Slice) and e.lower is None and e.upper is None:
-            kept.append(i)
-        else:
-            return None, len(elts)
-    return tuple(kept), len(elts)
+# ------------------------------------------------------------------------------------------------ R12.4
 
 
-def _flatten_mul(e: ast.expr) -> list:
+def _expand(e: ast.AST) -> list:
+    """e as a sum of products: [(rational coefficient, [factor nodes])]; products are distributed over parenthesised sums"""
+    if isinstance(e, ast.BinOp) and isinstance(e.op, ast.Add):
+        return _expand(e.left) + _expand(e.right)
+    if isinstance(e, ast.BinOp) and isinstance(e.op, ast.Sub):
+        return _expand(e.left) + [(-c, f) for c, f in _expand(e.right)]
+    if isinstance(e, ast.UnaryOp) and isinstance(e.op, ast.USub):
+        return [(-c, f) for c, f in _expand(e.operand)]
+    if isinstance(e, ast.UnaryOp) and isinstance(e.op, ast.UAdd):
+        return _expand(e.operand)
     if isinstance(e, ast.BinOp) and isinstance(e.op, ast.Mult):
-        return _flatten_mul(e.left) + _flatten_mul(e.right)
-    return [e]
+        return [(c1 * c2, f1 + f2) for c1, f1 in _expand(e.left) for c2, f2 in _expand(e.right)]
+    if isinstance(e, ast.BinOp) and isinstance(e.op, ast.Div):
+        den = _expand(e.right)
+        if len(den) == 1 and not den[0][1] and den[0][0] != 0:
+            return [(c / den[0][0], f) for c, f in _expand(e.left)]
+        inv = ast.BinOp(left=ast.Constant(value=1), op=ast.Div(), right=e.right)
+        return [(c, f + [inv]) for c, f in _expand(e.left)]
+    if isinstance(e, ast.Constant) and isinstance(e.value, (int, float)) and not isinstance(e.value, bool):
+        return [(Fraction(repr(e.value)) if isinstance(e.value, float) else Fraction(e.value), [])]
+    return [(Fraction(1), [e])]
 
 
-def _matrix_provenance(name, arm, common, depth=0):
-    """('T'|'D', direction) of a matrix name, following local definitions"""
-    if depth > 6:
+def _strip(e: ast.AST):
+    """(constructing call, [slices applied to it, outermost last]) with .toarray() / np.array(...) wrappers removed"""
+    slices = []
+    while True:
+        if isinstance(e, ast.Subscript):
+            slices.insert(0, e.slice)
+            e = e.value
+        elif isinstance(e, ast.Call) and isinstance(e.func, ast.Attribute) and e.func.attr in ("toarray", "todense", "copy") and not e.args:
+            e = e.func.value
+        elif isinstance(e, ast.Call) and (dotted(e.func) or "") in ("np.array", "np.asarray") and len(e.args) == 1:
+            e = e.args[0]
+        else:
+            return e, slices
+
+
+def _provenance(e: ast.AST):
+    """(kind 'T'|'D', direction, basis node or None, slices) of a resolved matrix expression"""
+    base, slices = _strip(e)
+    if not isinstance(base, ast.Call):
         return None
-    vals = arm.get(name) or common.get(name)
-    if not vals:
-        return None
-    v = vals[-1]
-    if isinstance(v, tuple):
-        # tuple position of getCompactCoordinates
-        _, i, call = v
-        if isinstance(call, ast.Call) and (dotted(call.func) or "").endswith("getCompactCoordinates"):
-            return ("coord", ("z", "pz", "pp")[i])
-        return None
-    base = v
-    while isinstance(base, ast.Subscript):
-        base = base.value
-    if isinstance(base, ast.Call):
-        d = dotted(base.func) or ""
-        short = d.split(".")[-1]
-        if short in ("matrix", "derivMatrix") and len(base.args) >= 2 and isinstance(base.args[1], ast.Constant):
-            recv = d.rsplit(".", 1)[0]
-            p = _matrix_provenance(recv, arm, common, depth + 1)
-            if p and p[0] == "fd":
-                return ("D", p[1], None)
-            return ("T" if short == "matrix" else "D", base.args[1].value, n(base.args[0]))
-        if short == "matrix":
-            recv = d.rsplit(".", 1)[0]
-            p = _matrix_provenance(recv, arm, common, depth + 1)
-            if p and p[0] == "fd":
-                return ("D", p[1], None)
-        if short == "identity":
-            a = n(base.args[0])
-            return ("T", "z" if "grid.M" in a else ("p" if "grid.N" in a else "?"), None)
-        if short == "FinDiff":
-            a0 = base.args[0]
-            if isinstance(a0, ast.Tuple) and isinstance(a0.elts[1], ast.Name):
-                p = _matrix_provenance(a0.elts[1].id, arm, common, depth + 1)
-                if p and p[0] == "coord":
-                    return ("fd", p[1])
-        if short == "toarray":
-            recv = d.rsplit(".", 1)[0]
-            # self-reference (derivMatrixChi = derivMatrixChi.toarray()[...]): look at the previous definition
-            vv = arm.get(recv) or common.get(recv) or []
-            if len(vv) >= 2 and recv == name:
-                sub = dict(arm)
-                sub[name] = vv[:-1]
-                return _matrix_provenance(name, sub, common, depth + 1)
-            return _matrix_provenance(recv, arm, common, depth + 1)
+    d = dotted(base.func) or ""
+    short = base.func.attr if isinstance(base.func, ast.Attribute) else d.split(".")[-1]
+    if short in ("identity", "eye") and d.split(".")[0] in ("np", "numpy") and base.args:
+        a = base.args[0]
+        isz, isp = has(a, "self.grid.M"), has(a, "self.grid.N")
+        return ("T", "z" if isz and not isp else ("p" if isp and not isz else "?"), None, slices)
+    if short in ("matrix", "derivMatrix") and isinstance(base.func, ast.Attribute):
+        recv, _ = _strip(base.func.value)
+        if isinstance(recv, ast.Call) and (dotted(recv.func) or "").split(".")[-1] == "FinDiff" and short == "matrix":
+            a0 = recv.args[0] if recv.args else None
+            if isinstance(a0, ast.Tuple) and len(a0.elts) == 3:
+                co = a0.elts[1]
+                if isinstance(co, ast.Subscript) and isinstance(co.value, ast.Call) and (dotted(co.value.func) or "").endswith("getCompactCoordinates") \
+                        and isinstance(co.slice, ast.Constant):
+                    return ("D", {0: "z", 1: "pz", 2: "pp"}.get(co.slice.value, "?"), None, slices)
+                if isinstance(co, ast.Call) and (dotted(co.func) or "").endswith("getCompactCoordinates") and isinstance(kwarg(co, "direction", 1), ast.Constant):
+                    return ("D", kwarg(co, "direction", 1).value, None, slices)
+            return None
+        if isinstance(recv, ast.Call) and (dotted(recv.func) or "").split(".")[-1] == "Polynomial":
+            basis, direction = kwarg(base, "basis", 0), kwarg(base, "direction", 1)
+            if isinstance(direction, ast.Constant) and basis is not None:
+                return ("T" if short == "matrix" else "D", direction.value, basis, slices)
     return None
 
 
+def _slices_txt(slices) -> str:
+    out = []
+    for s in slices:
+        elts = list(s.elts) if isinstance(s, ast.Tuple) else [s]
+        while len(elts) > 1 and isinstance(elts[-1], ast.Slice) and elts[-1].lower is None and elts[-1].upper is None and elts[-1].step is None:
+            elts.pop()
+        out.append(", ".join(nf(x) for x in elts))
+    return " | ".join(out)
+
+
 ROLE = {"z": (1, 5), "pz": (2, 6), "pp": (3, 7)}
+WANT_MATS = {"L1": {(1, 5): "D", (2, 6): "T", (3, 7): "T"}, "L2": {(1, 5): "T", (2, 6): "D", (3, 7): "T"}, "C": {(1, 5): "T"}}
 
 
-def r12_4(chk: Check, fi, arms) -> None:
-    # locate liouville / collision product expressions
-    exprs = {}
-    for st in own_nodes(fi.node):
-        if isinstance(st, ast.Assign) and isinstance(st.targets[0], ast.Name) and st.targets[0].id in ("liouville", "collision", "identityParticles"):
-            exprs[st.targets[0].id] = st
-    for k in ("liouville", "collision", "identityParticles"):
-        if k not in exprs:
-            raise AnchorMissing(f"buildLinearEquations: `{k}` not found")
-    # identityParticles role
-    ip = exprs["identityParticles"].value
-    kept, rank = _kept_axes(ip) if isinstance(ip, ast.Subscript) else (None, 0)
-    chk.ob("R12.4", fi.where(ip), "identityParticles occupies the particle axes (0,4) of the rank-8 operator", kept == (0, 4) and rank == 8,
-           f"{kept} of {rank}", key="role|identityParticles")
-    lv = exprs["liouville"].value
-    fac = _flatten_mul(lv)
-    chk.ob("R12.4", fi.where(lv), "liouville = identityParticles * (term1 - term2)", len(fac) == 2 and n(fac[0]) == "identityParticles"
-           and isinstance(fac[1], ast.BinOp) and isinstance(fac[1].op, ast.Sub), key="liouville|shape")
-    if not (len(fac) == 2 and isinstance(fac[1], ast.BinOp) and isinstance(fac[1].op, ast.Sub)):
-        return
-    terms = {"L1": fac[1].left, "L2": fac[1].right}
-    cv = exprs["collision"].value
-    cfac = _flatten_mul(cv)
-    inner = [f for f in cfac if isinstance(f, ast.BinOp) and isinstance(f.op, ast.Mult)]
-    terms["C"] = cv
-    want_scalars = {"L1": {"dchidxi", "momentumWall"}, "L2": {"dchidxi", "drzdpz", "dMsqdChi", "gammaWall / 2"},
-                    "C": {"temperature ** 2", "self.collisionMultiplier"}}
-    want_mats = {"L1": {(1, 5): "D", (2, 6): "T", (3, 7): "T"}, "L2": {(1, 5): "T", (2, 6): "D", (3, 7): "T"}, "C": {(1, 5): "T"}}
-    for arm_name in ("spectral", "fd"):
-        arm = arms[arm_name]
-        for tname, texpr in terms.items():
-            mats = {}
-            scalars = set()
+def _is_identity_particles(base: ast.AST) -> bool:
+    b, _ = _strip(base)
+    return isinstance(b, ast.Call) and (dotted(b.func) or "") in ("np.identity", "np.eye", "numpy.identity", "numpy.eye") and bool(b.args) \
+        and (eqx(b.args[0], "len(self.offEqParticles)") or has(b.args[0], "self.offEqParticles")) and not has(b.args[0], "self.grid")
+
+
+def r12_4(chk: Check, M: Model, slots: dict) -> None:
+    fi, ex = M.fi, M.ex
+    R = M.refs
+    DM = ex.sym(M.slot_syms["dMsqdChi"]) if "dMsqdChi" in M.slot_syms else None
+    rows = {}
+    shape_ok, ip_seen = True, []
+    jac_axes = []
+    for arm in ("spectral", "fd"):
+        F = M.flat[arm]
+        op, so, lv, cv = M.ret[arm]
+        lterms = _expand(lv)
+        pos = [t for t in lterms if t[0] > 0]
+        neg = [t for t in lterms if t[0] < 0]
+        if len(lterms) != 2 or len(pos) != 1 or len(neg) != 1:
+            shape_ok = False
+        terms = {}
+        if len(pos) == 1:
+            terms["L1"] = pos[0]
+        if len(neg) == 1:
+            terms["L2"] = neg[0]
+        cterms = _expand(cv)
+        if len(cterms) == 1:
+            terms["C"] = cterms[0]
+        for tname in ("L1", "L2", "C"):
             bad = []
-            for f_ in _flatten_mul(texpr):
-                if isinstance(f_, ast.Subscript):
+            mats = {}
+            scal = []
+            nip = 0
+            if tname not in terms:
+                chk.ob("R12.4", fi.where(), f"{arm} mode, {'Liouville term ' + tname[1] if tname != 'C' else 'collision term'}: "
+                       "every factor sits on the axes its provenance dictates", False, "the operator is not the expected sum of products", key=f"roles|{arm}|{tname}")
+                continue
+            coef, facs = terms[tname]
+            for f_ in facs:
+                if isinstance(f_, ast.Subscript) and _kept_axes(f_)[1] >= 5:
                     kept, rank = _kept_axes(f_)
-                    base = n(f_.value).strip("()")
+                    base = f_.value
                     if rank != 8 or kept is None:
                         bad.append(f"{n(f_)[:40]}: not an 8-slot broadcast index")
                         continue
-                    if kept == (0, 1, 2, 3):
-                        scalars.add(base)
-                    elif base == "self.collisionArray":
+                    if _is_identity_particles(base):
+                        nip += 1
+                        ip_seen.append((kept, rank, f_))
+                    elif kept == (0, 1, 2, 3):
+                        scal.append(base)
+                    elif eqx(base, "self.collisionArray"):
                         if kept != (0, 2, 3, 4, 6, 7):
                             bad.append(f"collisionArray on axes {kept}, expected (0,2,3,4,6,7)")
                     else:
-                        prov = _matrix_provenance(base, arm, arms["common"])
+                        prov = _provenance(F.full(base))
                         if prov is None:
-                            bad.append(f"{base}: provenance not understood")
+                            bad.append(f"{n(base)[:60]}: provenance not understood")
                             continue
-                        kind, direction = prov[0], prov[1]
-                        roles = [ROLE[direction]] if direction in ROLE else [(2, 6), (3, 7)]
-                        if kept not in roles:
-                            bad.append(f"{base} is a {direction}-direction matrix but sits on axes {kept}")
+                        kind, direction, basis, slices = prov
+                        roles_ = [ROLE[direction]] if direction in ROLE else [(2, 6), (3, 7)]
+                        if kept not in roles_:
+                            bad.append(f"{n(base)[:40]} is a {direction}-direction matrix but sits on axes {kept}")
                         mats[kept] = kind
-                        if len(prov) > 2 and prov[2] is not None:
+                        if basis is not None:
                             wb = "self.basisM" if direction == "z" else "self.basisN"
-                            if prov[2] != wb:
-                                bad.append(f"{base} built with basis {prov[2]}, expected {wb}")
+                            if not eqx(basis, wb):
+                                bad.append(f"{n(base)[:40]} built with basis {n(basis)}, expected {wb}")
+                        if kind == "D":
+                            rows[(arm, kept)] = (_slices_txt(slices), n(F.full(base))[:120])
                 else:
-                    scalars.add(n(f_).strip("()"))
-            if mats != want_mats[tname]:
-                bad.append(f"matrix kinds per axis pair {mats}, expected {want_mats[tname]}")
-            if not want_scalars[tname] <= {s_.replace("(", "").replace(")", "") for s_ in scalars}:
-                bad.append(f"scalar factors {sorted(scalars)}, expected at least {sorted(want_scalars[tname])}")
-            chk.ob("R12.4", fi.where(texpr), f"{arm_name} mode, {'Liouville term ' + tname[1] if tname != 'C' else 'collision term'}: "
-                   "every factor sits on the axes its provenance dictates", not bad, "; ".join(bad)[:400], key=f"roles|{arm_name}|{tname}")
+                    scal.append(f_)
+            if tname != "C" and nip != 1:
+                shape_ok = False
+            if mats != WANT_MATS[tname]:
+                bad.append(f"matrix kinds per axis pair {mats}, expected {WANT_MATS[tname]}")
+            # the product of the point-wise (non-matrix) factors
+            roles = Roles(F.held)
+            prod = sp.Rational(coef.numerator, coef.denominator)
+            try:
+                for s_ in scal:
+                    prod = prod * M.term(roles, s_)
+            except Undecided as e:
+                prod = None
+                bad.append(f"point-wise factor outside the arithmetic subset: {e}")
+            want = {"L1": R["dchidxi"] * R["momentumWall"],
+                    "L2": -R["dchidxi"] * R["drzdpz"] * R["gammaWall"] / 2 * (DM if DM is not None else sp.Symbol("dMsqdChi")),
+                    "C": R["T"] ** 2 * ex.sym("CM")}[tname]
+            if prod is not None:
+                z, how = is_zero(prod - want, chk.seed)
+                if not z:
+                    bad.append(f"point-wise factors multiply to {prod}, expected {want}")
+            for key_, (sym, leaf) in roles.leaves.items():
+                if sym.startswith("JAC"):
+                    jac_axes.append((sym, _leaf_axis(leaf)))
+            chk.ob("R12.4", fi.where(), f"{arm} mode, {'Liouville term ' + tname[1] if tname != 'C' else 'collision term'}: "
+                   "every factor sits on the axes its provenance dictates", not bad, "; ".join(bad)[:400], key=f"roles|{arm}|{tname}")
+    if not ip_seen:
+        raise AnchorMissing("buildLinearEquations: the particle identity of the Liouville operator was not found")
+    kept, rank, node = ip_seen[0]
+    chk.ob("R12.4", fi.where(), "identityParticles occupies the particle axes (0,4) of the rank-8 operator", all(k == (0, 4) and r == 8 for k, r, _ in ip_seen),
+           f"{kept} of {rank}", key="role|identityParticles")
+    chk.ob("R12.4", fi.where(), "liouville = identityParticles * (term1 - term2)", shape_ok, key="liouville|shape")
     # slices [1:-1] of the derivative matrices (drop boundary rows)
-    for nm in ("derivMatrixChi", "derivMatrixRz"):
-        v = arms["spectral"].get(nm)
-        ok = bool(v) and isinstance(v[-1], ast.Subscript) and slice_src(v[-1].slice) == "1:-1"
-        chk.ob("R12.4", fi.where(), f"spectral `{nm}` drops the two boundary rows ([1:-1])", ok, n(v[-1]) if v else "", key=f"rows|{nm}")
-        v = arms["fd"].get(nm)
-        ok = bool(v) and isinstance(v[-1], ast.Subscript) and slice_src(v[-1].slice) == "1:-1, 1:-1"
-        chk.ob("R12.4", fi.where(), f"finite-difference `{nm}` drops boundary rows and columns ([1:-1, 1:-1])", ok, n(v[-1]) if v else "",
-               key=f"rowsfd|{nm}")
+    for nm, axes in (("derivMatrixChi", (1, 5)), ("derivMatrixRz", (2, 6))):
+        got = rows.get(("spectral", axes))
+        chk.ob("R12.4", fi.where(), f"spectral `{nm}` drops the two boundary rows ([1:-1])", got is not None and got[0] == "1:-1", got[1] if got else "", key=f"rows|{nm}")
+        got = rows.get(("fd", axes))
+        chk.ob("R12.4", fi.where(), f"finite-difference `{nm}` drops boundary rows and columns ([1:-1, 1:-1])", got is not None and got[0] in ("1:-1, 1:-1", "1:-1 | :, 1:-1"),
+               got[1] if got else "", key=f"rowsfd|{nm}")
     # operator = liouville + collision
-    ok = any(isinstance(st, ast.Assign) and n(st.targets[0]) == "operator" and n(st.value) in ("liouville + collision", "collision + liouville")
-             for st in own_nodes(fi.node))
+    ok = True
+    for arm in ("spectral", "fd"):
+        op, so, lv, cv = M.ret[arm]
+        u = _unreshape(op)
+        ok = ok and u is not None and same(u[0], ast.BinOp(left=lv, op=ast.Add(), right=cv))
     chk.ob("R12.4", fi.where(), "operator = liouville + collision", ok, key="operator-sum")
-    # compactification derivative roles: dchidxi from element 0, drzdpz from element 1
-    okd = False
-    for st in own_nodes(fi.node):
-        if isinstance(st, ast.Assign) and isinstance(st.targets[0], ast.Tuple) and isinstance(st.value, ast.Call) \
-                and (dotted(st.value.func) or "").endswith("getCompactificationDerivatives"):
-            names = [n(e) for e in st.targets[0].elts]
-            d0, d1 = names[0], names[1]
-            a = {k: n(v[-1]) for k, v in arms["common"].items() if k in ("dchidxi", "drzdpz") and not isinstance(v[-1], tuple)}
-            okd = a.get("dchidxi", "").startswith(f"1 / {d0}[None, :, None, None]") and a.get("drzdpz", "").startswith(f"1 / {d1}[None, None, :, None]")
-    chk.ob("R12.4", fi.where(), "dchi/dxi and drz/dpz are the inverses of Jacobian elements 0 and 1 on the z and pz axes", okd, key="jacobian-roles")
+    # compactification derivative roles: dchidxi from element 0 on the z axis, drzdpz from element 1 on the pz axis (both inverted: see the products above)
+    for sym, leaf in M.roles_src.leaves.values():
+        if sym.startswith("JAC"):
+            jac_axes.append((sym, _leaf_axis(leaf)))
+    okd = {("JAC0", (1, 4)), ("JAC1", (2, 4))} <= set(jac_axes) and all(a == {"JAC0": (1, 4), "JAC1": (2, 4)}.get(s_) for s_, a in jac_axes)
+    chk.ob("R12.4", fi.where(), "dchi/dxi and drz/dpz are the inverses of Jacobian elements 0 and 1 on the z and pz axes", okd, str(sorted(set(jac_axes))), key="jacobian-roles")
     chk.floor("R12.4", 14)
+
+
+def _leaf_axis(leaf: ast.AST):
+    """(axis, rank) of a one-dimensional array broadcast as leaf = x[None, :, None, None]"""
+    if isinstance(leaf, ast.Subscript):
+        kept, rank = _kept_axes(leaf)
+        if kept is not None and len(kept) == 1:
+            return (kept[0], rank)
+    return None
+
+
+# ------------------------------------------------------------------------------------------------ R12.5
 
 
 def r12_5(chk: Check) -> None:
     f = chk.src.func(f"{BS}.setBackground")
     chk.touch(f.name)
-    st = [s for s in own_nodes(f.node) if isinstance(s, ast.Assign) and n(s.targets[0]) == "self.background"]
-    ok = len(st) == 1 and isinstance(st[0].value, ast.Call) and (dotted(st[0].value.func) or "").endswith("deepcopy") \
-        and n(st[0].value.args[0]) == "background"
+    cx = Ctx(chk.src, f)
+    prm = [p for p in f.params() if p != "self"]
+    g = CFG(f.node)
+    st = [s for s in own_nodes(f.node) if isinstance(s, ast.Assign) and any(eqx(t, "self.background") for t in s.targets)]
+    ok = False
+    if len(st) == 1 and len(prm) == 1:
+        v = cx.resolve(st[0].value)
+        ok = isinstance(v, ast.Call) and (dotted(v.func) or "").split(".")[-1] == "deepcopy" and len(v.args) == 1 and eqx(v.args[0], prm[0])
     chk.ob("R12.5", f.where(), "setBackground stores a deep copy of the caller's background", ok, key="deepcopy")
     boosts = calls_in(f.node, "boostToPlasmaFrame")
-    ok = len(boosts) == 1 and n(boosts[0].func) == "self.background.boostToPlasmaFrame" and st and boosts[0].lineno > st[0].lineno
+    ok = len(boosts) == 1 and eqx(boosts[0].func, "self.background.boostToPlasmaFrame") and len(st) == 1 \
+        and g.must_pass(CFG.ENTRY, g.node_of(boosts[0]), lambda q: q is st[0])
     chk.ob("R12.5", f.where(), "only the stored copy is boosted to the plasma frame", ok, key="boost-copy")
     fb = chk.src.func("containers:BoltzmannBackground.boostToPlasmaFrame")
     chk.touch(fb.name)
@@ -422,13 +1048,12 @@ def r12_5(chk: Check) -> None:
 
 
 def rules(chk: Check) -> None:
-    fi = chk.src.func(f"{BS}.buildLinearEquations")
-    chk.touch(fi.name)
-    arms = _arms(fi)
-    r12_1(chk, fi, arms)
-    r12_2(chk, fi)
-    r12_3(chk, fi)
-    r12_4(chk, fi, arms)
+    M = Model(chk.src)
+    chk.touch(M.fi.name)
+    slots = r12_2(chk, M)
+    r12_1(chk, M, slots)
+    r12_3(chk, M)
+    r12_4(chk, M, slots)
     r12_5(chk)
     # basis independence of everything derived from deltaF (shared rule with C13)
     from .c13 import cardinal_before_weights
